@@ -100,6 +100,22 @@ func PickHosts(ch *core.Chooser) []string {
 		idx[i], idx[j] = idx[j], idx[i]
 		hs = append(hs, from[idx[i]])
 	}
+	// hash-colliding names come in pairs: if one is in, so is its partner
+	pairs := [][2]string{{"c89959.example.org", "c2012306.example.org"}, {"o0-4vx.com", "o2o64x.com"}}
+	for _, pr := range pairs {
+		has0, has1 := false, false
+		for _, h := range hs {
+			has0 = has0 || h == pr[0]
+			has1 = has1 || h == pr[1]
+		}
+		if has0 != has1 {
+			if has0 {
+				hs = append(hs, pr[1])
+			} else {
+				hs = append(hs, pr[0])
+			}
+		}
+	}
 	// skew: a "hot" host takes a larger share of rules and queries, so that
 	// many rules pile up on one name
 	hot := []int{0, 0, 2, 5}[ch.Intn("hosts.hot", 4)]
